@@ -123,12 +123,17 @@ def gen_site(rng, name, del_ids, nworkers=None):
         if mode in ('lab', 'both'):
             ent[LABD] = {d: {'pool_id': '_', 'labels': {'vlan_range': f'{100 + 10 * i}-{109 + 10 * i}'} if kind == 'port' else {'bdf': '0000:25:00.0'}}
                          for i, d in enumerate(ds)}
+            if rng.random() < 0.2:
+                # a free-text label whose value happens to be the delegation id
+                for d in ds:
+                    ent[LABD][d]['labels'] = dict(ent[LABD][d]['labels'], local_name=d)
         s.delegations[nid] = ent
     # a pooled delegation: defined on one node, referenced from others
     cands = [nid for nid, kind in delegable if kind == 'port' and nid not in s.delegations]
     if len(cands) >= 2 and rng.random() < 0.7:
         d = rng.choice(del_ids)
-        pool = f'{name}-pool{rng.randrange(10)}'
+        # (a pool may be named like the delegation it belongs to - only '_' is reserved)
+        pool = f'{name}-pool{rng.randrange(10)}' if rng.random() < 0.7 else d
         members = rng.sample(cands, rng.randrange(2, min(4, len(cands)) + 1))
         t, key, det = rng.choice([(LABD, 'labels', {'vlan_range': '2000-2999'}), (CAPD, 'capacities', {'bw': 100})])
         s.delegations[members[0]] = {t: {d: {'pool_id': pool, key: det}}}
